@@ -4,6 +4,7 @@ import (
 	"fmt"
 	"go/token"
 	"go/types"
+	"strings"
 
 	"golang.org/x/tools/go/ssa"
 )
@@ -203,6 +204,7 @@ func c13(r *Report, s *Sem) {
 	finS := p.Method("ServerChannel", "FinishSession")
 	if serving != nil && finS != nil {
 		ok := false
+		var finCall ssa.CallInstruction
 		for _, f := range withAnon(serving) {
 			if f == serving || !isDeferredClosure(serving, f) {
 				continue
@@ -212,11 +214,18 @@ func c13(r *Report, s *Sem) {
 					atoms := s.AtomsAt(c)
 					if hasAtom(atoms, "state==", "established") {
 						ok = true
+						finCall = c
 					}
 				}
 			})
 		}
 		r.Check(R3, "func "+fnName(serving)+" / deferred block finishes an established session", p.pos(serving.Pos()), ok, "when the dispatch loop ends (handler error, shutdown, peer's finishing) the server must answer 'finished' and close")
+		if finCall != nil {
+			// the dispatch loop ends, among other reasons, because the server's own context was cancelled (Server.Close):
+			// the finishing envelope must then be written under a context that is still alive
+			fresh, why := freshContext(finCall.Common().Args[1], 0)
+			r.Check(R3, "func "+fnName(serving)+" / the finishing call runs under a context of its own", p.instrPos(finCall.(ssa.Instruction)), fresh, "the context must derive from context.Background(), not from the serving context that shutdown cancels"+why)
+		}
 	} else {
 		r.Undecided(R3, "anchor-unresolved:serving function", "-", "not found")
 	}
@@ -351,6 +360,52 @@ func c13(r *Report, s *Sem) {
 	// ---- R7
 	reach := p.reachable(a.receiver)
 	r.Check(R7, "receiver goroutine / cannot reach the stop-and-wait routine", p.pos(a.receiver.Pos()), !reach[a.stopFn], "the receiver may only use the lock-only setter")
+
+	// ---- R11: the stop routine waits for the receiver; the receiver must therefore be interruptible wherever it can wait
+	R11 := r.Rule("R11", "the receiver can always be stopped: every hand-off to an inbound stream made by the receiver goroutine or by what it calls is an arm of a select that also waits on the receiver's context (a plain send would park the goroutine the terminating call is waiting for, as soon as a consumer stops reading)", 4)
+	isStreamChan := func(v ssa.Value) *types.Var {
+		for _, l := range leaves(v) {
+			if f := s.chanField(l); f != nil {
+				for _, sf := range a.streams {
+					if sf == f {
+						return f
+					}
+				}
+			}
+		}
+		return nil
+	}
+	for _, fn := range p.LimeFuncs() {
+		if !reach[fn] && !enclosedBy(fn, a.receiver) {
+			continue
+		}
+		eachInstr(fn, func(in ssa.Instruction) {
+			switch x := in.(type) {
+			case *ssa.Send:
+				if f := isStreamChan(x.Chan); f != nil {
+					r.Check(R11, "func "+fnName(fn)+" / hand-off to "+f.Name(), p.instrPos(in), false, "plain send on an inbound stream in the receiver's call tree: it cannot be interrupted by the stop routine")
+				}
+			case *ssa.Select:
+				for _, st := range x.States {
+					if st.Dir != types.SendOnly {
+						continue
+					}
+					f := isStreamChan(st.Chan)
+					if f == nil {
+						continue
+					}
+					hasDone := false
+					for _, st2 := range x.States {
+						if _, isDone := isCtxDoneChan(st2.Chan); isDone && st2.Dir == types.RecvOnly {
+							hasDone = true
+						}
+					}
+					// the session stream is buffered and written at most once (R9): its hand-off may also be non-blocking
+					r.Check(R11, "func "+fnName(fn)+" / hand-off to "+f.Name(), p.instrPos(in), hasDone || !x.Blocking, "a blocking select handing an envelope to a stream needs the arm <-ctx.Done()")
+				}
+			}
+		})
+	}
 }
 
 // selectArmBlock finds the block executed when select `sel` chose state i.
@@ -456,4 +511,34 @@ func reachableIfParamIs(fn *ssa.Function, prm *ssa.Parameter, T string, target *
 		return (cd.Op == token.EQL) != (cs == T)
 	})
 	return seen[target]
+}
+
+// freshContext: v is context.Background()/TODO() or a context.With* derivation of one (never of a parameter or captured context).
+func freshContext(v ssa.Value, d int) (bool, string) {
+	if d > 6 {
+		return false, ""
+	}
+	n := 0
+	for _, l := range leaves(v) {
+		n++
+		l = stripConv(l)
+		call, _ := callOf(l)
+		if call == nil {
+			return false, "; derives from " + describe(l)
+		}
+		g := call.Call.StaticCallee()
+		if g == nil || g.Pkg == nil || g.Pkg.Pkg.Path() != "context" {
+			return false, "; derives from " + describe(l)
+		}
+		switch {
+		case g.Name() == "Background" || g.Name() == "TODO":
+		case strings.HasPrefix(g.Name(), "With"):
+			if ok, why := freshContext(call.Call.Args[0], d+1); !ok {
+				return false, why
+			}
+		default:
+			return false, "; derives from " + describe(l)
+		}
+	}
+	return n > 0, ""
 }
